@@ -78,6 +78,18 @@ def quiescent_ok(snap: dict[str, Any]) -> str | None:
     return "workflow %s, stages %s, queue empty: silently stuck" % (wf, st)
 
 
+def post_final_or_waiting(w: World, snap: dict[str, Any], info: dict[str, Any]) -> tuple[str, Any] | None:
+    """C05 for runs with an operator pause: finished, or explicitly waiting.  A workflow that is
+    PAUSED is waiting for a resume by definition; what its completion messages did meanwhile (they
+    are refused while the pause lasts and may exhaust their attempts, DESIGN O10) is not judged."""
+    if snap["workflow"] == "PAUSED":
+        return None
+    q = quiescent_ok(snap)
+    if q is not None:
+        return ("not_quiescent/%s" % state_sig(summarize(snap)), {"why": q})
+    return None
+
+
 def compare_outcome(ref: dict[str, Any], got_summary: dict[str, Any], got_ledger: list[tuple[str, str, str]], extra_allowed: int) -> tuple[str, Any] | None:
     rs = ref["summary"]
     if got_summary["workflow"] != rs["workflow"]:
